@@ -799,4 +799,8 @@ theorem reported_value_is_the_overlap_specification (a b : Tab) (r : Option Nat)
       Hilbert.ipVal r = (1 / 2 : ℂ) ^ (b.n - d)) :=
   Sweep.reported_value_is_spec_overlap a b r hn va ra vb rb h
 
+/-- the hypotheses of the cross-reference theorems are met by `|00⟩`: valid, real stabilizer rows, and `inner_product` returns -/
+example : (Tab.ket0 2).Valid ∧ (Tab.ket0 2).StabReal ∧ STab.innerProduct (Tab.ket0 2) (Tab.ket0 2) = .ok (some 0) :=
+  ⟨(Tab.isSymplectic_iff _).mp (by decide), Hilbert.ket0_stabReal 2, by decide +kernel⟩
+
 end Graphiq.C05
